@@ -132,6 +132,17 @@ def gen_plan(seed, prop, faults, nested=False):
                     tree = [rng.choice(['And', 'Or']), tree, rng.choice(qs)]
             formulas.append({'logic': logic, 'tree': tree,
                              'text_ok': core.text_writable(tree)})
+    if prop == 'C07' and rng.random() < 0.15:
+        # an input far deeper than the recursion limit: the call raises
+        # RecursionError part-way (an exception caused by the input, not
+        # injected); the arguments must be unchanged all the same
+        lg = rng.choice([l for l in cfg['logics'] if l != 'LTL'] or ['CTL'])
+        formulas.append({'logic': lg, 'tree': ['ap', 'p'], 'text_ok': False,
+                         'deep': {'logic': lg,
+                                  'kind': 'X' if lg == 'CTLS' else 'Not',
+                                  'n': rng.choice([1100, 1500, 3000])},
+                         'mc': lg, 'large_ok': False})
+        cfg['deep_formula'] = True
     if cfg['weird_atoms'] and rng.random() < 0.5:
         # two formulas that differ in one atom only, the atoms differing in
         # white space only ("p q" / "p  q"): distinct propositions
@@ -408,8 +419,11 @@ class Pool(object):
         self.formulas = []
         for f in plan['formulas']:
             try:
-                self.formulas.append(core.build_formula(f['tree'],
-                                                        f['logic']))
+                if f.get('deep'):
+                    self.formulas.append(core.build_deep_formula(f['deep']))
+                else:
+                    self.formulas.append(core.build_formula(f['tree'],
+                                                            f['logic']))
             except TypeError:
                 self.formulas.append(None)
         self.texts = [core.formula_text(f['tree']) if f['text_ok'] else None
